@@ -284,7 +284,12 @@ func runC15(c *Ctx) {
 		rounds = 80
 	}
 	for r := 0; r < rounds; r++ {
-		c15Soak(c, r, backends[r%4], dir)
+		c15Soak(c, r, backends[r%4], dir, false)
+	}
+	// the same with 40000-byte regions under a packet size of 65536 on both sides (MaxPacketUnchecked, MaxTxPacket): still one
+	// packet per operation, so still atomic
+	for r := 0; r < rounds/2; r++ {
+		c15Soak(c, r, backends[r%4], dir, true)
 	}
 }
 
@@ -294,8 +299,14 @@ func runC15(c *Ctx) {
 // that region (or the initial one), whole; a reader never sees an older pattern after a newer one; at the end every region
 // holds the last pattern written. Many requests are in flight at once all the time (with the allocator on: pages are lent
 // and returned continuously). Oracle only.
-func c15Soak(c *Ctx, r int, be, dir string) {
-	const G, region, iters = 8, 512, 150
+func c15Soak(c *Ctx, r int, be, dir string, big bool) {
+	G, region, iters := 8, 512, 150
+	var copts []sftp.ClientOption
+	var maxTx uint32
+	if big {
+		G, region, iters = 4, 40000, 40
+		copts, maxTx = []sftp.ClientOption{sftp.MaxPacketUnchecked(1 << 16)}, 1<<16
+	}
 	pat := func(g, i int) []byte {
 		b := make([]byte, region)
 		for x := range b {
@@ -316,18 +327,18 @@ func c15Soak(c *Ctx, r int, be, dir string) {
 	case "os", "osalloc":
 		name = filepath.Join(dir, fmt.Sprintf("soak%d", r))
 		os.WriteFile(name, initial, 0o644)
-		pr, err = newPair(pairOpt{alloc: be == "osalloc"})
+		pr, err = newPair(pairOpt{alloc: be == "osalloc", clientOpts: copts, maxTx: maxTx})
 	default:
 		fs := newMemFS()
 		mf = fs.get("/f", true)
 		mf.data = append([]byte(nil), initial...)
-		pr, err = newPair(pairOpt{reqServer: true, handlers: fs.handlers(), alloc: be == "reqalloc"})
+		pr, err = newPair(pairOpt{reqServer: true, handlers: fs.handlers(), alloc: be == "reqalloc", clientOpts: copts, maxTx: maxTx})
 	}
 	if err != nil {
 		c.Diag("soak pair: %v", err)
 		return
 	}
-	nn := c.Case("soak", kvi("round", r), kvs("be", be), kvi("g", G), kvi("iters", iters))
+	nn := c.Case("soak", kvi("round", r), kvs("be", be), kvi("g", G), kvi("iters", iters), kvi("region", region))
 	c.NT(nn)
 	c.Stat("soak_" + be)
 	f, err := pr.Client.OpenFile(name, os.O_RDWR)
@@ -363,7 +374,7 @@ func c15Soak(c *Ctx, r int, be, dir string) {
 			defer wg.Done()
 			last := 0
 			b := make([]byte, region)
-			for atomic.LoadInt32(&done) < G {
+			for int(atomic.LoadInt32(&done)) < G {
 				n, err := f.ReadAt(b, int64(g*region))
 				if err != nil || n != region {
 					fail(fmt.Sprintf("ReadAt failed: n=%d err=%v", n, err))
@@ -378,7 +389,7 @@ func c15Soak(c *Ctx, r int, be, dir string) {
 						for x := 3; x < region && torn; x++ {
 							okb := false
 							for j := last; j <= iters && !okb; j++ {
-								okb = b[x] == pat(g, j)[x]
+								okb = b[x] == byte(g*31+j*7+x*3+1) // pat(g, j)[x] for x >= 3
 							}
 							torn = okb
 						}
